@@ -1,5 +1,5 @@
 #![allow(dead_code)]
-mod vocab; mod tree; mod val; mod call; mod render; mod refsem; mod expect; mod engine; mod meta; mod agg; mod loops; mod history; mod conv;
+mod vocab; mod tree; mod val; mod call; mod render; mod refsem; mod expect; mod engine; mod meta; mod agg; mod loops; mod history; mod conv; mod fclass;
 
 use engine::*;
 use serde_json::{json, Value};
@@ -44,13 +44,18 @@ fn run_replay(job: &Value) {
         if k == 1 { p.spaces = true; }
         p
     }).collect();
-    let phs = placeholder_pool(&e, full_ph);
+    let mut phs = placeholder_pool(&e, full_ph);
+    if job["cpx_generic"].as_bool().unwrap_or(false) && e == "cpx" {
+        // generic complex operands: both parts non-zero, moderate magnitude (C08)
+        phs = [(1.5, -2.0), (0.3, 0.7), (-1.2, 0.4), (2.5, 1.5), (-0.8, -1.1), (0.05, 3.0)].iter().map(|(a, b)| val::Val::C(num_complex::Complex::new(*a, *b))).collect();
+    }
     let boundary = job["boundary_pool"].as_bool().unwrap_or(false);
     let max_assign = job["max_assign"].as_u64().unwrap_or(512) as usize;
     let only_kinds: Vec<String> = job["only_kinds"].as_array().map(|a| a.iter().filter_map(|x| x.as_str().map(String::from)).collect()).unwrap_or_default();
     let extras: Vec<String> = job["extras"].as_array().map(|a| a.iter().filter_map(|x| x.as_str().map(String::from)).collect()).unwrap_or_default();
     let samples: Vec<Vec<String>> = job["samples"].as_array().map(|a| a.iter().map(|s| s.as_array().unwrap().iter().map(|k| k.as_str().unwrap().to_string()).collect()).collect()).unwrap_or_default();
     let thorough = job["tier"].as_str() == Some("thorough");
+    let each_fn = job["each_function"].as_bool().unwrap_or(false);
     let nsuffix = job["reject_suffixes"].as_u64().unwrap_or(0) as usize;
     let mut rng = Rng(job["seed"].as_u64().unwrap_or(1).wrapping_mul(0x9E3779B97F4A7C15) ^ shard);
     let file = std::io::BufReader::new(std::fs::File::open(job["beh"].as_str().unwrap()).unwrap());
@@ -61,6 +66,7 @@ fn run_replay(job: &Value) {
         let bv: Value = match serde_json::from_str(&line) { Ok(x) => x, Err(_) => continue };
         out.heartbeat(i);
         out.stats.items += 1;
+        if bv["kind"].as_str() == Some("fclass") { out.heartbeat(i); out.stats.items += 1; fclass::replay(&mut out, &bv); continue; }
         if bv.get("chars").is_some() {
             let (text, outs) = replay_string(&mut out, &e, &bv, &phs, i);
             if extras.iter().any(|x| x == "spellings") { meta::whitespace_only(&mut out, &e, &text, &outs, &mut rng, thorough); }
@@ -78,6 +84,16 @@ fn run_replay(job: &Value) {
             let bp: Vec<render::Policy> = asgs.into_iter().map(|a| { let mut p = render::Policy::reveal(&e, 0); p.lits = lits.clone(); p.fixed = a; p.sups = vec!["2".into(), "3".into(), "0".into(), "1".into(), "63".into(), "64".into()]; p }).collect();
             replay_base(&mut out, &v, &e, &b, &bp, &phs, min_ops);
             continue;
+        }
+        // every spelling of the class of the first function token (vocabulary properties: C08, C10, C13)
+        if each_fn && b.verdict == "accept" {
+            if let Some(k) = b.kinds.iter().find(|k| matches!(k.as_str(), "f1" | "f2" | "fv" | "fa")) {
+                let n = v.keywords_of(&e, k).len();
+                let ps: Vec<render::Policy> = (0..n).map(|i| { let mut p = render::Policy::all_fns(&e, i % 3); p.fn_first = Some(i); p }).collect();
+                let used = replay_base(&mut out, &v, &e, &b, &ps, &phs, min_ops);
+                if extras.iter().any(|x| x == "spellings") { for (r, outs) in used.iter() { meta::spellings(&mut out, &v, &e, &b, r, outs, &ps[0], &mut rng, false); } }
+                continue;
+            }
         }
         let used = replay_base(&mut out, &v, &e, &b, &pols, &phs, min_ops);
         if nsuffix > 0 { replay_reject_suffixes(&mut out, &v, &e, &b, &pols[0], &mut rng, nsuffix); }
